@@ -221,6 +221,17 @@ theorem rep_put {c : Cfg α} {s : SV α} {els : List (Slot α)} (hr : Rep c s el
     · simp only [SV.setBuf, hh, SV.buf]; exact hb
     · simpa [SV.setBuf, hh, SV.isLocal] using (hloc ▸ ht)
 
+theorem setBuf_size_same (s : SV α) (b : List (Slot α)) :
+    ({ s.setBuf b with size := s.size } : SV α) = s.setBuf b := by
+  unfold SV.setBuf; cases s.heap <;> rfl
+
+theorem rep_put_same {c : Cfg α} {s : SV α} {els : List (Slot α)} (hr : Rep c s els)
+    (b els' tl' : List (Slot α)) (hb : b = els' ++ tl') (hlen : b.length = s.buf.length)
+    (hl : c.trivial = false → NoRaw els') (ht : TailOK c s.isLocal tl') (hn : els'.length = s.size) :
+    Rep c (s.setBuf b) els' := by
+  have := rep_put hr b els' tl' s.size hb hlen hl ht hn
+  rwa [setBuf_size_same] at this
+
 /-! ### free_heap_memory, grow, reserve -/
 
 theorem freeHeap_ok (c : Cfg α) (els tl : List (Slot α)) (n : Nat) (hn : n = els.length)
@@ -528,5 +539,298 @@ theorem insert_spec {c : Cfg α} {s : SV α} {vs : List α} (h : Abs c s vs) (po
       · simp only [List.map_append, List.append_assoc]
         rw [← List.append_assoc ((xs.take _).map _), ← List.map_append, List.take_append_drop]
       · rw [hb]; simp at hT1 ⊢; omega
+
+/-! ### resize -/
+
+theorem resize_spec {c : Cfg α} {s : SV α} {vs : List α} (h : Abs c s vs) (n : Nat) :
+    ∃ s', resize c s n = .ok s' ∧ Abs c s' (vs.take n ++ List.replicate (n - vs.length) c.dflt) := by
+  have hsz : vs.length = s.size := by simpa using h.size_eq
+  by_cases hc : n ≤ s.cap c
+  · obtain ⟨tl, hb, ht⟩ := h.tail
+    have hbl : s.buf.length = s.cap c := h.cap.symm
+    by_cases hgrow : s.size < n
+    · -- new elements inside the capacity
+      have htl : n - s.size ≤ tl.length := by
+        have := congrArg List.length hb; simp at this; omega
+      obtain ⟨T1, T2, hts, hT1⟩ := split2 tl (n - s.size) htl
+      subst hts
+      have hspec : vs.take n ++ List.replicate (n - vs.length) c.dflt =
+          vs ++ List.replicate (n - s.size) c.dflt := by
+        rw [List.take_of_length_le (by omega), hsz]
+      rw [hspec]
+      cases hh : s.heap with
+      | none =>
+        have hloc : s.isLocal = true := by simp [SV.isLocal, hh]
+        have hbuf : s.buf = s.loc := by simp [SV.buf, hh]
+        have m := assignRange_ok (buf := s.loc) (pos := s.size) c.trivial (vs.map Slot.alive) T1 T2
+          (List.replicate (n - s.size) c.dflt) (by rw [← hbuf, hb, List.append_assoc]) (by simp [hsz]) (by simpa using hT1)
+          (fun htv => by have := ht.left htv; simpa [hloc] using this)
+        refine ⟨{ s with loc := vs.map Slot.alive ++ (List.replicate (n - s.size) c.dflt).map Slot.alive ++ T2,
+                         size := n }, ?_, ?_⟩
+        · unfold resize
+          simp only [hc, if_true, hh, hgrow, m, bind, Except.bind, pure, Except.pure]
+        · have := rep_put h (vs.map Slot.alive ++ (List.replicate (n - s.size) c.dflt).map Slot.alive ++ T2)
+            ((vs ++ List.replicate (n - s.size) c.dflt).map Slot.alive) T2 n (by simp) (by rw [hb]; simp; omega)
+            (fun _ => noRaw_map_alive _) ht.right (by simp; omega)
+          unfold Abs
+          simpa [SV.setBuf, hh] using this
+      | some hb0 =>
+        have hloc : s.isLocal = false := by simp [SV.isLocal, hh]
+        have hbuf : s.buf = hb0 := by simp [SV.buf, hh]
+        have hres : Abs c { s with heap := some (vs.map Slot.alive ++
+            (List.replicate (n - s.size) c.dflt).map Slot.alive ++ T2), size := n }
+            (vs ++ List.replicate (n - s.size) c.dflt) := by
+          have := rep_put h (vs.map Slot.alive ++ (List.replicate (n - s.size) c.dflt).map Slot.alive ++ T2)
+            ((vs ++ List.replicate (n - s.size) c.dflt).map Slot.alive) T2 n (by simp) (by rw [hb]; simp; omega)
+            (fun _ => noRaw_map_alive _) ht.right (by simp; omega)
+          unfold Abs
+          simpa [SV.setBuf, hh] using this
+        refine ⟨_, ?_, hres⟩
+        cases htv : c.trivial with
+        | true =>
+          have m := assignRange_ok (buf := hb0) (pos := s.size) true (vs.map Slot.alive) T1 T2
+            (List.replicate (n - s.size) c.dflt) (by rw [← hbuf, hb, List.append_assoc]) (by simp [hsz])
+            (by simpa using hT1) (fun hf => by cases hf)
+          unfold resize
+          simp only [hc, if_true, hh, hgrow, htv, m, bind, Except.bind, pure, Except.pure]
+        | false =>
+          have m := constructRange_ok (buf := hb0) (pos := s.size) false (vs.map Slot.alive) T1 T2
+            (List.replicate (n - s.size) c.dflt) (by rw [← hbuf, hb, List.append_assoc]) (by simp [hsz])
+            (by simpa using hT1) (fun _ => by have := ht.left htv; simpa [hloc] using this)
+          have hn : ¬ n < s.size := by omega
+          unfold resize
+          simp only [hc, if_true, hh, hgrow, htv, hn, m, bind, Except.bind, pure, Except.pure, Bool.false_eq_true,
+            if_false]
+    · -- shrink (or same size)
+      have hn : n ≤ vs.length := by omega
+      obtain ⟨A, B, hvs, hA⟩ := split2 vs n hn
+      subst hvs
+      have hspec : (A ++ B).take n ++ List.replicate (n - (A ++ B).length) c.dflt = A := by
+        subst hA; simp
+      rw [hspec]
+      simp only [List.map_append] at hb
+      cases hh : s.heap with
+      | none =>
+        have hloc : s.isLocal = true := by simp [SV.isLocal, hh]
+        have hbuf : s.buf = s.loc := by simp [SV.buf, hh]
+        refine ⟨{ s with loc := s.loc, size := n }, ?_, ?_⟩
+        · unfold resize
+          simp only [hc, if_true, hh, hgrow, if_false, bind, Except.bind, pure, Except.pure]
+        · refine ⟨h.loc_len, h.loc_live, by simp [hA], fun _ => noRaw_map_alive _,
+            ⟨B.map Slot.alive ++ tl, ?_, ?_⟩⟩
+          · simp only [SV.buf, hh]; rw [← hbuf, hb, List.append_assoc]
+          · intro htv; simp only [SV.isLocal, hh]; simp
+            have := ht htv; rw [hloc] at this
+            exact NoRaw.append (noRaw_map_alive _) (by simpa using this)
+      | some hb0 =>
+        have hloc : s.isLocal = false := by simp [SV.isLocal, hh]
+        have hbuf : s.buf = hb0 := by simp [SV.buf, hh]
+        cases htv : c.trivial with
+        | true =>
+          refine ⟨{ s with heap := some hb0, size := n }, ?_, ?_⟩
+          · unfold resize
+            simp only [hc, if_true, hh, hgrow, htv, if_false, bind, Except.bind, pure, Except.pure]
+          · refine ⟨h.loc_len, h.loc_live, by simp [hA], fun _ => noRaw_map_alive _,
+              ⟨B.map Slot.alive ++ tl, ?_, fun hf => by rw [htv] at hf; cases hf⟩⟩
+            simp only [SV.buf]; rw [← hbuf, hb, List.append_assoc]
+        | false =>
+          by_cases hlt : n < s.size
+          · have m := destroyRange_ok (buf := hb0) (pos := n) (n := s.size - n) (A.map Slot.alive) (B.map Slot.alive) tl
+              (by rw [← hbuf, hb]) (by simp [hA]) (by simp at hsz ⊢; omega) (noRaw_map_alive _)
+            refine ⟨{ s with heap := some (A.map Slot.alive ++ List.replicate (s.size - n) Slot.raw ++ tl), size := n },
+              ?_, ?_⟩
+            · unfold resize
+              simp only [hc, if_true, hh, hgrow, htv, hlt, m, if_false, bind, Except.bind, pure, Except.pure,
+                Bool.false_eq_true]
+            · refine ⟨h.loc_len, h.loc_live, by simp [hA], fun _ => noRaw_map_alive _,
+                ⟨List.replicate (s.size - n) Slot.raw ++ tl, by simp [SV.buf], ?_⟩⟩
+              intro _; simp only [SV.isLocal]; simp
+              have := ht htv; rw [hloc] at this
+              exact AllRaw.append (allRaw_replicate _) (by simpa using this)
+          · have hB : B = [] := by
+              have : B.length = 0 := by simp at hsz; omega
+              exact List.length_eq_zero_iff.1 this
+            subst hB
+            have m := constructRange_ok (buf := hb0) (pos := s.size) false (A.map Slot.alive) [] tl
+              (List.replicate (n - s.size) c.dflt) (by rw [← hbuf, hb]; simp) (by simp at hsz ⊢; omega)
+              (by simp; omega) (fun _ => AllRaw.nil)
+            have hz : n - s.size = 0 := by omega
+            refine ⟨{ s with heap := some (A.map Slot.alive ++ ([] : List α).map Slot.alive ++ tl), size := n }, ?_, ?_⟩
+            · unfold resize
+              simp only [hz, List.replicate_zero] at m
+              simp only [hc, if_true, hh, hgrow, htv, hlt, hz, m, List.replicate_zero, if_false, bind, Except.bind,
+                pure, Except.pure, Bool.false_eq_true]
+            · refine ⟨h.loc_len, h.loc_live, by simp [hA], fun _ => noRaw_map_alive _,
+                ⟨tl, by simp [SV.buf], ?_⟩⟩
+              intro hf; simp only [SV.isLocal]; simp
+              have := ht hf; rw [hloc] at this; simpa using this
+  · -- beyond the capacity: grow, then construct the new elements
+    have hle : s.size ≤ n := by have := h.size_le_cap; omega
+    obtain ⟨s1, hg1, ha1, hh1, hl1⟩ := grow_spec h n hle
+    have hsz1 : s1.size = s.size := by
+      have a := ha1.size_eq; have b := h.size_eq; omega
+    have hloc1 : s1.isLocal = false := by
+      unfold SV.isLocal; cases hq : s1.heap <;> simp_all
+    obtain ⟨b, hput, habs⟩ := put_at_end ha1 (List.replicate (n - s1.size) c.dflt) (by simp; omega)
+    rw [hloc1] at hput
+    simp only [putRange, Bool.false_eq_true, if_false] at hput
+    have hspec : vs.take n ++ List.replicate (n - vs.length) c.dflt =
+        vs ++ List.replicate (n - s1.size) c.dflt := by
+      rw [List.take_of_length_le (by omega), hsz, hsz1]
+    rw [hspec]
+    have hn : s1.size + (List.replicate (n - s1.size) c.dflt).length = n := by simp; omega
+    rw [hn] at habs
+    refine ⟨_, ?_, habs⟩
+    unfold resize
+    simp only [hc, if_false, hg1, hput, bind, Except.bind, pure, Except.pure]
+
+/-! ### constructors, destructor, element access -/
+
+theorem freshLoc_noRaw (c : Cfg α) (h : c.trivial = false) : NoRaw (freshLoc c) := by
+  unfold freshLoc; rw [h]; exact noRaw_replicate_alive _ _
+
+theorem freshLoc_length (c : Cfg α) : (freshLoc c).length = c.S := by simp [freshLoc]
+
+theorem build_spec (c : Cfg α) (vals : List α) : ∃ s', build c vals = .ok s' ∧ Abs c s' vals := by
+  by_cases hn : vals.length ≤ c.S
+  · have hsplit : freshLoc c = [] ++ List.replicate vals.length (if c.trivial then Slot.raw else Slot.alive c.dflt)
+        ++ List.replicate (c.S - vals.length) (if c.trivial then Slot.raw else Slot.alive c.dflt) := by
+      rw [List.nil_append, List.replicate_append_replicate]; unfold freshLoc; congr 1; omega
+    have hlive : c.trivial = false → NoRaw (List.replicate (c.S - vals.length)
+        (if c.trivial then (Slot.raw : Slot α) else Slot.alive c.dflt)) := by
+      intro ht; rw [ht]; exact noRaw_replicate_alive _ _
+    have m := assignRange_ok (buf := freshLoc c) (pos := 0) c.trivial [] _ _ vals hsplit rfl (by simp)
+      (fun ht => by rw [ht]; exact noRaw_replicate_alive _ _)
+    refine ⟨?wA, ?h1, ?h2⟩
+    case h1 =>
+      unfold build
+      simp only [hn, if_true, m, bind, Except.bind, pure, Except.pure]
+      rfl
+    case h2 =>
+      refine ⟨by simp; omega, ?_, by simp, fun _ => noRaw_map_alive _, ⟨_, rfl, ?_⟩⟩
+      · intro ht
+        exact NoRaw.append (NoRaw.append NoRaw.nil (noRaw_map_alive _)) (hlive ht)
+      · intro ht; simpa [SV.isLocal] using hlive ht
+  · have m := constructRange_ok (buf := List.replicate vals.length (Slot.raw : Slot α)) (pos := 0) c.trivial []
+      (List.replicate vals.length Slot.raw) [] vals (by simp) rfl (by simp) (fun _ => allRaw_replicate _)
+    refine ⟨?wB, ?h3, ?h4⟩
+    case h3 =>
+      unfold build
+      simp only [hn, if_false, m, bind, Except.bind, pure, Except.pure]
+      rfl
+    case h4 =>
+      exact ⟨freshLoc_length c, freshLoc_noRaw c, by simp, fun _ => noRaw_map_alive _,
+        ⟨[], by simp [SV.buf], tailOK_nil _ _⟩⟩
+
+theorem contents_ok {c : Cfg α} {s : SV α} {vs : List α} (h : Abs c s vs) : contents s = .ok vs := by
+  obtain ⟨tl, hb, _⟩ := h.tail
+  have hsz : vs.length = s.size := by simpa using h.size_eq
+  exact readRange_ok [] vs tl (by simpa using hb) rfl hsz.symm
+
+theorem ctorCopy_spec {c : Cfg α} {src : SV α} {vs : List α} (h : Abs c src vs) :
+    ∃ s', ctorCopy c src = .ok s' ∧ Abs c s' vs := by
+  obtain ⟨s', h1, h2⟩ := build_spec c vs
+  have hr := contents_ok h
+  unfold contents at hr
+  exact ⟨s', by simp only [ctorCopy, hr, h1, bind, Except.bind], h2⟩
+
+/-- the source of a move keeps `els` that are live objects: it stays well formed -/
+theorem moved_from_wf {c : Cfg α} {s : SV α} {vs : List α} (h : Abs c s vs) (tl : List (Slot α))
+    (hb : s.buf = vs.map Slot.alive ++ tl) (ht : TailOK c s.isLocal tl) :
+    WF c (s.setBuf ([] ++ mv c.trivial vs ++ tl)) := by
+  have hsz : vs.length = s.size := by simpa using h.size_eq
+  have := rep_put_same h ([] ++ mv c.trivial vs ++ tl) (mv c.trivial vs) tl (by simp)
+    (by rw [hb]; simp [mv_length]) (fun _ => mv_noRaw _ _) ht (by simp [mv_length, hsz])
+  exact ⟨_, this⟩
+
+theorem heap_of_big {c : Cfg α} {s : SV α} {els : List (Slot α)} (h : Rep c s els) (hn : ¬ s.size ≤ c.S) :
+    ∃ hb, s.heap = some hb := by
+  cases hh : s.heap with
+  | some b => exact ⟨b, rfl⟩
+  | none =>
+    exfalso
+    have := h.size_le_cap
+    simp [SV.cap, hh] at this
+    omega
+
+theorem ctorMove_spec {c : Cfg α} {src : SV α} {vs : List α} (h : Abs c src vs) :
+    ∃ d s', ctorMove c src = .ok (d, s') ∧ Abs c d vs ∧ WF c s' := by
+  have hsz : vs.length = src.size := by simpa using h.size_eq
+  obtain ⟨tl, hb, ht⟩ := h.tail
+  by_cases hn : src.size ≤ c.S
+  · have m1 := moveOutRange_ok (buf := src.buf) (pos := 0) (n := src.size) c.trivial [] vs tl
+      (by simpa using hb) rfl hsz.symm
+    have hsplit : freshLoc c = [] ++ List.replicate vs.length (if c.trivial then Slot.raw else Slot.alive c.dflt)
+        ++ List.replicate (c.S - vs.length) (if c.trivial then Slot.raw else Slot.alive c.dflt) := by
+      rw [List.nil_append, List.replicate_append_replicate]; unfold freshLoc; congr 1; omega
+    have hlive : c.trivial = false → NoRaw (List.replicate (c.S - vs.length)
+        (if c.trivial then (Slot.raw : Slot α) else Slot.alive c.dflt)) := by
+      intro ht; rw [ht]; exact noRaw_replicate_alive _ _
+    have m2 := assignRange_ok (buf := freshLoc c) (pos := 0) c.trivial [] _ _ vs hsplit rfl (by simp)
+      (fun ht => by rw [ht]; exact noRaw_replicate_alive _ _)
+    refine ⟨?d, _, ?h1, ?h2, moved_from_wf h tl hb ht⟩
+    case h1 =>
+      unfold ctorMove
+      simp only [hn, if_true, m1, m2, bind, Except.bind, pure, Except.pure]
+      rfl
+    case h2 =>
+      refine ⟨by simp; omega, ?_, by simp [hsz], fun _ => noRaw_map_alive _, ⟨_, rfl, ?_⟩⟩
+      · intro ht
+        exact NoRaw.append (NoRaw.append NoRaw.nil (noRaw_map_alive _)) (hlive ht)
+      · intro ht; simpa [SV.isLocal] using hlive ht
+  · obtain ⟨hb0, hh⟩ := heap_of_big h hn
+    have hbuf : src.buf = hb0 := by simp [SV.buf, hh]
+    have hloc : src.isLocal = false := by simp [SV.isLocal, hh]
+    refine ⟨{ loc := freshLoc c, heap := some hb0, size := src.size },
+            { loc := src.loc, heap := none, size := 0 }, ?_, ?_, ?_⟩
+    · unfold ctorMove
+      simp only [hn, if_false, hh, bind, Except.bind, pure, Except.pure]
+    · refine ⟨freshLoc_length c, freshLoc_noRaw c, h.size_eq, h.els_live, ⟨tl, ?_, ?_⟩⟩
+      · simp only [SV.buf]; rw [← hbuf, hb]
+      · rw [hloc] at ht; simpa [SV.isLocal] using ht
+    · exact ⟨[], h.loc_len, h.loc_live, rfl, fun _ => NoRaw.nil,
+        ⟨src.loc, by simp [SV.buf], fun htv => by simpa [SV.isLocal] using h.loc_live htv⟩⟩
+
+theorem dtor_spec {c : Cfg α} {s : SV α} (h : WF c s) : dtor c s = .ok () := by
+  obtain ⟨els, hr⟩ := h
+  have hl : (!c.trivial && s.loc.any (fun x => x.isRaw)) = false := by
+    cases ht : c.trivial with
+    | true => rfl
+    | false => simp only [Bool.not_false, Bool.true_and]; exact any_isRaw_false (hr.loc_live ht)
+  cases hh : s.heap with
+  | some b =>
+    simp only [dtor, hh, hr.freeHeap_ok b hh, hl, bind, Except.bind, pure, Except.pure]
+    rfl
+  | none =>
+    simp only [dtor, hh, hl, bind, Except.bind, pure, Except.pure]
+    rfl
+
+theorem getAt_spec {c : Cfg α} {s : SV α} {vs : List α} (h : Abs c s vs) (i : Nat) (v : α)
+    (hv : vs[i]? = some v) : getAt s i = .ok v := by
+  have hi := (split_at hv).2
+  have hsz : vs.length = s.size := by simpa using h.size_eq
+  have : ¬ s.size ≤ i := by omega
+  simp only [getAt, this, if_false, readAt_ok h i v hv]
+
+theorem setAt_spec {c : Cfg α} {s : SV α} {vs : List α} (h : Abs c s vs) (i : Nat) (x : α)
+    (hi : i < vs.length) : ∃ s', setAt c s i x = .ok s' ∧ Abs c s' (vs.set i x) := by
+  have hsz : vs.length = s.size := by simpa using h.size_eq
+  obtain ⟨tl, hb, ht⟩ := h.tail
+  have hv : vs[i]? = some vs[i] := List.getElem?_eq_getElem hi
+  obtain ⟨hsplit, _⟩ := split_at hv
+  have hbs : s.buf = (vs.take i).map Slot.alive ++ [Slot.alive vs[i]] ++ ((vs.drop (i + 1)).map Slot.alive ++ tl) := by
+    calc s.buf = vs.map Slot.alive ++ tl := hb
+      _ = (vs.take i ++ [vs[i]] ++ vs.drop (i + 1)).map Slot.alive ++ tl := by rw [← hsplit]
+      _ = _ := by simp only [List.map_append, List.map_cons, List.map_nil, List.append_assoc]
+  have m := assignRange_ok (buf := s.buf) (pos := i) c.trivial ((vs.take i).map Slot.alive) [Slot.alive vs[i]]
+    ((vs.drop (i + 1)).map Slot.alive ++ tl) [x] hbs (by simp; omega) rfl (fun _ => by intro s hs; simp at hs; subst hs; rfl)
+  have hset : vs.set i x = vs.take i ++ [x] ++ vs.drop (i + 1) := by
+    rw [List.set_eq_take_append_cons_drop]; simp [hi, List.append_assoc]
+  have hne : ¬ s.size ≤ i := by omega
+  refine ⟨s.setBuf ((vs.take i).map Slot.alive ++ [x].map Slot.alive ++ ((vs.drop (i + 1)).map Slot.alive ++ tl)), ?_, ?_⟩
+  · simp only [setAt, hne, if_false, m]
+  · exact rep_put_same h ((vs.take i).map Slot.alive ++ [x].map Slot.alive ++ ((vs.drop (i + 1)).map Slot.alive ++ tl))
+      ((vs.set i x).map Slot.alive) tl (by rw [hset]; simp [List.append_assoc]) (by rw [hbs]; simp)
+      (fun _ => noRaw_map_alive _) ht (by simp [hsz])
 
 end Vita.C20
